@@ -321,6 +321,12 @@ def _pool_init() -> None:
     _worker_env()
 
 
+def _warm(i: int) -> int:
+    import time
+    time.sleep(0.05)
+    return os.getpid()
+
+
 def _worker_enum(args: T.Tuple[str, T.List[Node], int, int, T.Any, int, int]) -> T.List[T.Dict[str, T.Any]]:
     """All programs prefix + n statements of the alphabet with codes lo..hi (table = prefix + alphabet)."""
     label, table, npre, n, lo, hi, af = args
@@ -680,13 +686,16 @@ def main(chk: Check) -> None:
     nrand = 2500 if quick else 80000
     ncli = 20 if quick else 240
     chk.rule = ('A: every program "prefix + up to N statements" over the four statement alphabets exported by LangObj_MC '
-                '(disabler 32, feature 19 x 3 auto_features values, configuration_data 24, environment 18 statements) and every '
+                '(disabler 33, feature 19 x 3 auto_features values, configuration_data 24, environment 18 statements) and every '
                 'observer of the path helpers over the string sets exported by LangObjPaths_MC (singles, pairs, short triples), '
                 'rendered to meson.build text and run in-process; B: seeded random programs of 8-30 statements; plus a CLI '
                 'sample. Non-trivial = the run printed at least one message or failed (distinct programs).')
     only = set(filter(None, os.environ.get('X04_ONLY', '').split(',')))     # debugging aid: run some parts only
     chk.max_reported = int(os.environ.get('X04_MAX_REPORTED', chk.max_reported))
-    with ThreadPoolExecutor(max_workers=4) as tlc_pool, ProcessPoolExecutor(max_workers=common.NCPU, initializer=_pool_init) as ex:
+    with ProcessPoolExecutor(max_workers=common.NCPU, initializer=_pool_init) as ex, ThreadPoolExecutor(max_workers=4) as tlc_pool:
+        # all worker processes are forked here, while this process is still single-threaded (a fork with other threads
+        # running can leave a child with a lock that nobody will release)
+        list(ex.map(_warm, range(common.NCPU * 2)))
         exports, mc_runs, bounds = start_model_checking(tlc_pool, quick)
         chk.extra['bounds'] = bounds
         impl_n = bounds['statements']
